@@ -81,8 +81,47 @@ func supervise(args []string) int {
 			return report(id, tier, sub, msg, replay, p)
 		}
 	}
+	// No single history kills its process. The workers of an exploration never share an object of the code
+	// under test (each history runs on instances of its own), so a runtime abort about concurrent access
+	// ("concurrent map writes", "concurrent map read and map write", ...) with frames of the code under test
+	// on the faulting goroutine means the code under test shares unsynchronised state between independent
+	// instances. Decide it in two steps: run the same check with ONE worker (if the sharing is visible
+	// sequentially this reports an ordinary, replayable violation); if that run is clean, report the abort itself.
+	if strings.Contains(tail, "fatal error: concurrent map") && strings.Contains(faultingGoroutine(tail), "github.com/0chain/common/") {
+		fmt.Fprintln(os.Stderr, "supervisor: concurrent map access inside the code under test; re-running the check with one worker")
+		_ = rt.CreateSlotFile(slots)
+		cmd := exec.Command(os.Args[0], args...)
+		cmd.Env = append(os.Environ(), "VERIF_CHILD=1", "VERIF_SLOTS="+slots, "VERIF_WORKERS=1")
+		cmd.Stdout, cmd.Stderr = os.Stdout, os.Stderr
+		err := cmd.Run()
+		if ee, ok := err.(*exec.ExitError); ok && ee.ExitCode() == 1 {
+			return 1
+		}
+		p := filepath.Join(rdir, fmt.Sprintf("%s-shared-state.txt", id))
+		_ = os.WriteFile(p, []byte(tail), 0o644)
+		msg := "independent instances of the code under test share unsynchronised state: the exploration's workers (each history on instances of its own) made the Go runtime abort with " + fatalSummary(faultingGoroutine(tail)) + "; a one-worker run of the same check shows no violation (the artefact is the abort's stack, there is no single history to replay)"
+		return report(id, tier, sub, msg, map[string]any{"stack_file": p}, p)
+	}
 	fmt.Fprintf(os.Stderr, "HARNESS-ERROR: the exploring process died (exit %d) and none of the %d in-flight histories reproduces it alone\n%s\n", code, len(cands), lastLines(tail, 30))
 	return 2
+}
+
+// faultingGoroutine returns the fatal line and the stack of the first goroutine printed after it.
+func faultingGoroutine(stderr string) string {
+	i := strings.Index(stderr, "fatal error:")
+	if i < 0 {
+		return ""
+	}
+	rest := stderr[i:]
+	j := strings.Index(rest, "\ngoroutine ")
+	if j < 0 {
+		return rest
+	}
+	k := strings.Index(rest[j+1:], "\n\ngoroutine ")
+	if k < 0 {
+		return rest
+	}
+	return rest[:j+1+k]
 }
 
 func report(id string, tier rt.Tier, sub bool, msg string, replay any, path string) int {
